@@ -11,6 +11,7 @@ import JunoModel.C11.ModelEvents
 import JunoModel.C11.ModelWsLoop
 import JunoModel.C11.ModelTxRules
 import JunoModel.C11.ModelNullId
+import JunoModel.C11.ModelValidateWalk
 /-!
 Line-protocol driver for the C11 model (`lake build c11drv`).
 
@@ -424,6 +425,13 @@ def step (st : St) (line : String) : St × String :=
       let present (f : TxRules.Field) : Bool :=
         ((TxRules.Field.all.zip bs).find? (fun p => p.1 == f)).map (fun p => p.2 == '1') |>.getD false
       (st, if TxRules.accepts ty present then "ok" else "refused")
+    | _, _ => (st, "bad-op")
+  | ["vwalk", shape, bits] =>
+    match shape.toList.mapM (fun ch => match ch with
+        | 'S' => some VWalk.Kind.slice | 'A' => some VWalk.Kind.array | 'M' => some VWalk.Kind.map
+        | 'P' => some VWalk.Kind.ptr | _ => none),
+      bits.toList.mapM (fun ch => match ch with | '1' => some true | '0' => some false | _ => none) with
+    | some ks, some leaves => (st, if VWalk.accepted ks leaves then "ok" else "refused")
     | _, _ => (st, "bad-op")
   | ["nullfix", b] =>
     match bool01? b with
